@@ -5,6 +5,7 @@
 //! one record per item (anchor lines, cfg gates, status).  The translator FAILS CLOSED: any
 //! construct outside its subset makes the item (and therefore its module) untranslated; the
 //! module is then listed with status "failed" and no .v file is written for it.
+mod expand;
 mod expr;
 mod tables;
 mod types;
@@ -175,10 +176,11 @@ fn sig_of(module: &str, f: &syn::ItemFn) -> Result<FnSig, String> {
 
 fn main() {
   let args: Vec<String> = std::env::args().collect();
-  if args.len() != 3 {
-    eprintln!("usage: bm2coq <repo-root> <out-dir>");
+  if args.len() < 3 {
+    eprintln!("usage: bm2coq <repo-root> <out-dir> [<config>=<expanded.rs> ...]");
     std::process::exit(2);
   }
+  let configs: Vec<(String, String)> = args[3..].iter().filter_map(|a| a.split_once('=').map(|(k, v)| (k.to_string(), v.to_string()))).collect();
   let repo = Path::new(&args[1]);
   let out = Path::new(&args[2]);
   std::fs::create_dir_all(out).unwrap();
@@ -301,8 +303,13 @@ fn main() {
   meta.push_str("\n ]\n}\n");
   std::fs::write(out.join("meta.json"), meta).unwrap();
 
-  // tables: impl rules, contiguous rows, features
-  tables::emit_tables(repo, out);
+  // tables: impl rules, contiguous rows, checked validity predicates — from the macro-expanded crate
+  if !configs.is_empty() {
+    if let Err(e) = expand::emit(&configs, out) {
+      eprintln!("tables: {}", e);
+      let _ = std::fs::remove_file(out.join("Tables.v"));
+    }
+  }
 }
 
 /// Order the items so that callees precede callers, then print the module.
